@@ -218,6 +218,47 @@ Proof.
   unfold expected_toc, targets_are_pages in *. rewrite <- Hp in *. apply Htoc. exact Ht.
 Qed.
 
+(* the same over the complete model of get_toc (Model/TocNamed.v), ANY catalog: the build leaves the name tree entries
+   of the catalog alone, but whether get_named_destinations accepts the tree is decided on the document that is read *)
+From LV Require Model.TocNamed Proofs.OutlineProofsNamed.
+
+Theorem reads_back_ops_wf_nm d ops cid rid cat fuel2 pcat i g ks :
+  let b := add_all (fresh_bdoc d) ops in
+  let f := forest_of_ops (map sop_of ops) in
+  let m0 := d_max_id d in
+  f <> [] ->
+  max_id_bounds d ->
+  m0 + 1 + 2 * N.of_nat (OutlineSpec.fsize f) < U32_LIMIT ->
+  root_id d = Some cid ->
+  get_object_mut_id (d_objects d) cid = Some (rid, ODict cat) ->
+  distinct_titles f -> scalar_titles f ->
+  N.of_nat (OutlineSpec.fheight f) <= OUTLINE_DEPTH_LIMIT + 1 ->
+  (OutlineSpec.fsize f <= fuel2)%nat ->
+  catalog d = Some pcat ->
+  dict_get pcat K_Pages = Some (ORef i g) ->
+  tree_wf d (PNode (i, g) ks) ->
+  (N.of_nat (height (PNode (i, g) ks)) <= PAGE_TREE_DEPTH_LIMIT + 1)%N ->
+  exists b',
+    build_outline (default_fuel b) b = OOk (Some (m0 + 1, 0), b') /\
+    let d2 := attach (base b') cid (m0 + 1, 0) in
+    get_pages d2 = get_pages d /\
+    (targets_are_pages d f ->
+     TocNamed.get_toc fuel2 d2 = if TocNamed.name_tree_readable d2 then TOk (expected_toc d f) 0 else TErr).
+Proof.
+  intros b f m0 Hne Hmax Hlim Hroot Hcat Hdist Hscal Hdeep Hfuel2 Hpcat Hpages Hwf Hh.
+  destruct (OutlineProofsNamed.reads_back_ops_nm d ops cid rid cat fuel2 Hne Hmax Hlim Hroot Hcat Hdist Hscal Hdeep Hfuel2)
+    as [b' [Hbuild Htoc]]. fold b f m0 in Hbuild, Htoc.
+  exists b'. split; [exact Hbuild|]. intro d2.
+  destruct (add_all_repr d ops) as [Hbase [Hroots [Htr Hdf]]]. fold b f in Hbase, Hroots, Htr, Hdf.
+  assert (Hp : get_pages d2 = get_pages d).
+  { pose proof (pages_unchanged b f cid rid cat (default_fuel b) b' pcat i g ks Hroots Hne Htr) as H.
+    cbv zeta in H. rewrite Hbase in H. fold m0 in H. apply H; try assumption.
+    rewrite Hdf. apply forest_height. }
+  split; [exact Hp|]. intro Ht.
+  cbv zeta in Htoc. fold d2 in Htoc. unfold OutlineProofsNamed.toc_or_err in Htoc.
+  unfold expected_toc, targets_are_pages in *. rewrite <- Hp in *. apply Htoc. exact Ht.
+Qed.
+
 (* non-vacuity: the example document of Proofs/OutlineProofsProps.v meets C12's hypotheses *)
 From LV Require Proofs.OutlineProofsProps.
 Definition ex17_tree : ptree := PNode (2, 0) [PLeaf (3, 0); PLeaf (4, 0)].
